@@ -85,6 +85,12 @@ def run(tier, seed):
             candidates.append((t, v))
     summary = {"candidates": candidates}
     baseline_same = ec.finish_candidates(PID, verdict, summary, wd, "eng_persist", [])
+    # real-process leg: kill -9 of a child running the engine over the real RocksDB / Fjall backends
+    import c08real
+    bdb = vp.build(features="backends")
+    rviol, rcov = c08real.real_crash_part(bdb, wd, seed, quick)
+    for v in rviol:
+        verdict.violation(v["what"], v["replay"])
     rc = verdict.finish()
     sample = []
     for e in vp.read_ndjson(traces[0]["trace"]):
@@ -106,11 +112,13 @@ def run(tier, seed):
         "post_crash_value_deviations_in_runs_with_known_finding_history": contaminated,
         "unsignatured_but_baseline_identical": baseline_same,
         "groupings": ["one", "up to 3", "all", "seeded 1..4"],
+        "real_process_crash": rcov,
     }
     vp.write_evidence(PID, tier, seed, "fault_enumeration", coverage, time.time() - t0,
                       len(verdict.violations),
-                      assumptions=["crash = loss of a suffix of MemKv's physical commits, each commit atomic "
-                                   "(the KvDatabase contract; the real backends' atomicity is not enumerated)",
+                      assumptions=["simulated leg: crash = loss of a suffix of MemKv's physical commits, each commit "
+                                   "atomic (the KvDatabase contract); real leg: SIGKILL of a process running over "
+                                   "RocksDB / Fjall (the OS page cache survives: not a power-loss test)",
                                    "the first phase runs with the commit gate closed, so what is in each "
                                    "physical commit does not depend on thread timing",
                                    "value checks after a crash are verdicts only for runs whose pre-crash "
@@ -120,6 +128,9 @@ def run(tier, seed):
 
 def replay(path):
     rp = json.load(open(path))
+    if rp.get("real_crash"):
+        import c08real
+        return c08real.replay_real(rp, path)
     bd = vp.build()
     wd = vp.workdir(PID, "replay")
     cin = os.path.join(wd, "case.ndjson")
@@ -156,5 +167,7 @@ def selftest(seed):
     got = [v for v in res2["viol"] if v["kind"] == "recovered_inputs_not_a_committed_state"]
     print(f"selftest {PID}: corrupted recovered inputs flagged: {len(got)}")
     ok = done and len(got) >= 1
+    import c08real
+    ok = ok and c08real.selftest_real(seed)
     print("selftest", "passed" if ok else "FAILED")
     return 0 if ok else 2
